@@ -12,8 +12,14 @@ for d in sorted(os.listdir(os.path.join(V, "seeded"))):
     p = os.path.join(V, "seeded", d)
     if not os.path.isfile(os.path.join(p, "patch.diff")) or not d.startswith(only):
         continue
+    if not os.path.isfile(os.path.join(p, "meta.json")):
+        continue
     meta = json.load(open(os.path.join(p, "meta.json")))
     pid = meta["property"]
+    if os.environ.get("SEEDTABLE_RESUME") and isinstance(meta.get("detected_by"), dict) and meta["detected_by"].get("check") == "./check %s %s" % (pid, tier) \
+            and meta["detected_by"].get("result", "").startswith("caught"):
+        rows.append((d, pid, meta["detected_by"]["result"], meta["detected_by"].get("reported", "")))
+        continue
     t0 = time.time()
     chk = subprocess.run(["git", "-C", "/repo", "apply", "--check", os.path.join(p, "patch.diff")], capture_output=True, text=True)
     if chk.returncode != 0:
